@@ -65,6 +65,10 @@ TEqualsAB ==
             THEN PrintT(<<"JDV-KNOWN", Rec.sess, "C17", "v1-diff-ignores-precision">>)
        ELSE CheckK(FALSE, "C17", "empty-iff-equal")
 
+TSame ==
+  /\ IsEvent("Same") /\ Consume /\ Keep /\ UNCHANGED ctx
+  /\ Judge("C17") => CheckK(Rec.res.st = "ok" /\ Rec.eq, "C17", "same-values")
+
 Trip(prop, name) ==
   /\ Check(Rec.read = "ok", prop, <<name, "read">>)
   /\ Rec.read = "ok" => CheckK(Rec.res.st = "ok" /\ Rec.eq, prop, <<name, "patch-or-equals">>)
@@ -90,7 +94,7 @@ TMergeTrip == IsEvent("MergeTrip") /\ Consume /\ Keep /\ UNCHANGED ctx
 
 TEnd == IsEvent("End") /\ Consume /\ doc' = Void /\ rest' = <<>> /\ status' = "idle" /\ ctx' = NoCtx
 
-Next == TBegin \/ TDiff \/ TStep \/ TEquals \/ TEqualsAB \/ TTextTrip \/ TRenderPatch \/ TPatchTrip \/ TRenderMerge \/ TMergeTrip
+Next == TBegin \/ TDiff \/ TStep \/ TEquals \/ TEqualsAB \/ TSame \/ TTextTrip \/ TRenderPatch \/ TPatchTrip \/ TRenderMerge \/ TMergeTrip
         \/ TEnd \/ (Done /\ UNCHANGED <<doc, rest, status, ctx>>)
 Spec == Init /\ [][Next]_vars
 =============================================================================
